@@ -34,6 +34,15 @@ e("clause-loop-guard-after-index-test", [("src/solution_node.rs",
    "                if sn_ref.no_backtracking { return None; }\n\n                if sn_ref.rule_index >= sn_ref.number_facts_rules { return None; }",
    "                if sn_ref.rule_index >= sn_ref.number_facts_rules { return None; }\n                if sn_ref.no_backtracking { return None; }")])
 
+e("add-uses-sum", [("src/built_in_arithmetic.rs", "        let sum = i.iter().fold(0, |mut sum, &x| {sum += x; sum});", "        let sum: i64 = i.iter().sum();")])
+e("renamer-uses-map-collect", [("src/unifiable.rs",
+   "            Unifiable::SComplex(terms) => {\n                let mut new_terms = vec![];\n                for term in terms {\n                    let term = term.recreate_variables(recreated_vars);\n                    new_terms.push(term);\n                }\n                Unifiable::SComplex(new_terms)\n            },",
+   "            Unifiable::SComplex(terms) => {\n                Unifiable::SComplex(recreate_vars_terms(terms, recreated_vars))\n            },")])
+e("solve-reordered", [("src/solutions.rs",
+   "            let query = sn.borrow().goal.clone();\n            let result = query.replace_variables(&ss);\n            return format_solution(&query, &result);",
+   "            let query = Rc::clone(&sn.borrow().goal);\n            let result = query.replace_variables(&ss);\n            let text = format_solution(&query, &result);\n            return text;")])
+e("make-query-resets-separately", [("src/s_complex.rs", "    start_query();  // Reset LOGIC_VAR_ID and SUIRON_STOP_QUERY.", "    crate::time_out::start_query();")])
+
 def main():
     idx = []
     for name, edits in E:
